@@ -6,7 +6,6 @@ package c16
 import (
 	"fmt"
 	"os"
-	"sort"
 	"testing"
 
 	tokentypes "mods.irisnet.org/modules/token/types"
@@ -72,15 +71,6 @@ func truncate(s string, n int) string {
 		return s[:n]
 	}
 	return s
-}
-
-func sortedKeys(m map[string]int) []string {
-	ks := make([]string, 0, len(m))
-	for k := range m {
-		ks = append(ks, k)
-	}
-	sort.Strings(ks)
-	return ks
 }
 
 var _ = fmt.Sprint
